@@ -215,7 +215,12 @@ func genZebraNHT(seed uint64, tier string) *Script {
 		case r < 70:
 			p := g.n(2)
 			m := int64(pick(g, []int{-1, -1, 10, 10, 20}))
-			add(Op{Kind: "znh", Arg: peerAddr(p), N: int(m)})
+			o := Op{Kind: "znh", Arg: peerAddr(p), N: int(m)}
+			if g.p(35) {
+				// a second update written back to back with the first (one segment on the wire)
+				o.Prefix, o.Count, o.PathID = peerAddr(g.n(2)), pick(g, []int{-1, 10, 20}), 1
+			}
+			add(o)
 		case r < 82:
 			ann(g.n(2), pick(g, pfx))
 		case r < 90:
@@ -431,32 +436,47 @@ func zebraOp(w *simWorld, actor int, op *Op) {
 		if conn == nil || conn.isClosed() {
 			return
 		}
-		m := int64(op.N)
-		if m >= 0 {
-			z.nht.reach[op.Arg] = m
-		} else if _, known := z.nht.reach[op.Arg]; known {
-			z.nht.reach[op.Arg] = -1
+		var wire []byte
+		type upd struct {
+			nh string
+			m  int64
 		}
-		// an update for a next hop that no route uses makes the client unregister and forget it
-		used := false
-		for _, by := range z.nht.ann {
-			for p := range by {
-				if peerAddr(p) == op.Arg {
-					used = true
+		upds := []upd{{op.Arg, int64(op.N)}}
+		if op.PathID == 1 {
+			upds = append(upds, upd{op.Prefix, int64(op.Count)})
+		}
+		for _, u := range upds {
+			m := u.m
+			if m >= 0 {
+				z.nht.reach[u.nh] = m
+			} else if _, known := z.nht.reach[u.nh]; known {
+				z.nht.reach[u.nh] = -1
+			}
+			// an update for a next hop that no route uses makes the client unregister and forget it
+			used := false
+			for _, by := range z.nht.ann {
+				for p := range by {
+					if peerAddr(p) == u.nh {
+						used = true
+					}
 				}
 			}
+			if !used {
+				delete(z.nht.reach, u.nh)
+				w.probe("nht_update_for_unused_next_hop")
+			}
+			wire = append(wire, zNexthopUpdate(u.nh, m)...)
+			w.net.stats.fire("zapi_nexthop_update")
+			if m < 0 {
+				w.probe("nht_unreachable_sent")
+			} else {
+				w.probe("nht_reachable_sent")
+			}
 		}
-		if !used {
-			delete(z.nht.reach, op.Arg)
-			w.probe("nht_update_for_unused_next_hop")
+		if len(upds) > 1 {
+			w.probe("nht_updates_back_to_back")
 		}
-		conn.Write(zNexthopUpdate(op.Arg, m))
-		w.net.stats.fire("zapi_nexthop_update")
-		if m < 0 {
-			w.probe("nht_unreachable_sent")
-		} else {
-			w.probe("nht_reachable_sent")
-		}
+		conn.Write(wire)
 		zebraSettle()
 	case "nhtcheck":
 		time.Sleep(2 * time.Second)
